@@ -48,6 +48,46 @@ DESC = {
     "C19-B": "the SyntaxError handler logs `e.text.rstrip()`; None for codec failures",
     "C20-A": "repository cleanup runs for `Exception` only: an interrupt leaves HEAD on the parent",
     "C20-B": "checkout skipped when HEAD already equals the target: a half-done reset leaves a dirty tree",
+    "C01-C": "(round 3) a def named like an import alias removes the alias, whatever its scope",
+    "C01-D": "(round 3) import findings reported on the line of the offending name of a multi-line import, not where the statement starts",
+    "C02-C": "(round 3) nosec comment parsing cached per text and comment sets merged in place: sets leak between lines and files",
+    "C02-D": "(round 3) `Metrics.aggregate` skips every block whose key starts with `_` (relative `_vendor` targets vanish from the totals)",
+    "C03-C": "(round 3) one threshold by count and the other by name: the counted one is silently replaced by the default",
+    "C03-D": "(round 3) quiet-mode gate of txt/screen calls the helper with the thresholds swapped: empty report, exit 1",
+    "C04-C": "(round 3) the progress bar wraps the working copy files are removed from",
+    "C04-D": "(round 3) findings appended straight to the run-wide list: a file that fails after the visit is skipped *and* reported on",
+    "C05-C": "(round 3) `visit_*` methods skipped for node types without a selected test: import tables not filled",
+    "C05-D": "(round 3) `if not blacklist` becomes `is None`: every config profile loses the built-in blacklist check",
+    "C06-C": "(round 3) qualnames stored as a frozenset and looked up with `in`: an unhashable literal name raises",
+    "C06-D": "(round 3) B610 binds positional arguments by index into a 6-tuple: a seventh raises IndexError",
+    "C07-C": "(round 3) baseline indexed per file with `itertools.groupby` on an unsorted list (`-a vuln` baselines)",
+    "C07-D": "(round 3) txt/screen candidate lists skip the finding printed as heading: its location appears nowhere",
+    "C08-C": "(round 3) with an include selection, plugins are looked up by iterating the ID set (hash-seed order)",
+    "C08-D": "(round 3) `blacklist_by_name` dropped, names compared in the dict `get_url` rewrites: nosec by name breaks after a report",
+    "C09-C": "(round 3) SARIF `parse_code` uses `splitlines()`: form feed / U+2028 in an excerpt break the report",
+    "C09-D": "(round 3) `as_dict` reports `linerange[0]` as line number: JSON/YAML/CSV disagree with XML/HTML/custom",
+    "C10-C": "(round 3) the range of def/class ends before the first body statement (empty for one-line definitions)",
+    "C10-D": "(round 3) trojan-source splits with `str.splitlines()`: line numbers drift after ^L, U+2028, NEL",
+    "C11-C": "(round 3) config `exclude_dirs` entries lose their trailing slash and then match as substrings",
+    "C11-D": "(round 3) a directory target whose spelling has an earlier target as string prefix (`src`, `src2`) is skipped",
+    "C12-C": "(round 3) `data.split(b'\\n')` feeds the loc count: lone-CR files count as one line",
+    "C12-D": "(round 3) `Metrics.aggregate` skips underscored keys",
+    "C13-C": "(round 3) a plugin without a config block reuses the `_config` a previous test set left on the function",
+    "C13-D": "(round 3) the config file is read as UTF-8 text outside every handler: UTF-16 / Latin-1 YAML ends in a traceback",
+    "C14-C": "(round 3) B607's spawn-name set is built once per process from the first configuration",
+    "C14-D": "(round 3) B609 asks for the literal `shell=True` while B602 accepts any truthy value",
+    "C15-C": "(round 3) B509 counts keywords as keys: `UsmUserData(u, k, authProtocol=...)` passes",
+    "C15-D": "(round 3) B505's threshold table is cached per process",
+    "C16-C": "(round 3) `visit_Call` returns early when the callee has no static name: B106 never sees `f()(password='x')`",
+    "C16-D": "(round 3) stale `_config` reused when the config has no block (B108 keeps the previous scan's directories)",
+    "C17-C": "(round 3) `concat_string` walks left operands only: SQL split over a parenthesised right operand is not joined",
+    "C17-D": "(round 3) B703: a later literal-only conditional overwrites the insecure verdict of an earlier one",
+    "C18-C": "(round 3) nosec tokens lower-cased before the name lookup",
+    "C18-D": "(round 3) plugin documentation URLs built from the entry-point name: B324's link goes dead",
+    "C19-C": "(round 3) stdin renamed in the work list only after parsing: skipping the piped source raises ValueError",
+    "C19-D": "(round 3) B613 pre-filters raw bytes on 0xE2: bidi marks in Hebrew/Arabic code pages and gb18030 are missed",
+    "C20-C": "(round 3) cleanliness checked with `git diff HEAD`: a staged edit whose working copy was reverted is not refused and is lost",
+    "C20-D": "(round 3) the tool re-raises SIGTERM/SIGHUP of the bandit subprocess on itself inside the cleanup scope",
 }
 
 
